@@ -1,0 +1,67 @@
+//go:build verif
+
+package address
+
+// Machine-checked contracts for this package (read by /verif/govc; comment-only, compiled only
+// with -tags verif). See /verif/DESIGN.md.
+
+//@ props C19
+
+//@ spec known(s string) bool = s == "iota" || s == "atoi" || s == "smr" || s == "rms"
+//@ spec hrpof(p Prefix, s string) bool = (p == 0 && s == "iota") || (p == 1 && s == "atoi") || (p == 2 && s == "smr") || (p == 3 && s == "rms")
+
+//@ func (p Prefix) String() (r string)
+//@   repr byte uint32
+//@   requires 0 <= p && p < 4
+//@   ensures  hrpof(p, r)
+//@   panics   never
+
+//@ func ParsePrefix(s string) (p Prefix, err error)
+//@   repr byte uint32
+//@   ensures isnil(err) == known(s)
+//@   ensures implies(isnil(err), hrpof(p, s))
+//@   ensures implies(!isnil(err), is(err, ErrInvalidPrefix) && p == 0)
+//@   panics  never
+
+//@ func (a Ed25519Address) Bytes() (r []byte)
+//@   repr byte uint32
+//@   ensures len(r) == 33 && r[0] == 0 && forall(k, 0, 32, r[1+k] == a.hash[k])
+//@   panics  never
+//@   noframe
+
+//@ func (a AliasAddress) Bytes() (r []byte)
+//@   repr byte uint32
+//@   ensures len(r) == 21 && r[0] == 8 && forall(k, 0, 20, r[1+k] == a.hash[k])
+//@   panics  never
+//@   noframe
+
+//@ func (a NFTAddress) Bytes() (r []byte)
+//@   repr byte uint32
+//@   ensures len(r) == 21 && r[0] == 16 && forall(k, 0, 20, r[1+k] == a.hash[k])
+//@   panics  never
+//@   noframe
+
+//@ func Bech32(hrp Prefix, addr Address) (r string, err error)
+//@   repr byte uint32
+//@   specialize addr Ed25519Address AliasAddress NFTAddress
+//@   requires 0 <= hrp && hrp < 4
+//@   let h = arg(bech32.Encode, 1, 0)
+//@   let b = arg(bech32.Encode, 1, 1)
+//@   ensures isnil(err)
+//@   ensures hrpof(hrp, h)
+//@   ensures len(r) == len(h)+1+(len(b)*8+4)/5+6
+//@   ensures forall(k, 0, len(h), r[k] == h[k]) && r[len(h)] == '1'
+//@   panics  never
+
+//@ func ParseBech32(s string) (p Prefix, a Address, err error)
+//@   repr byte uint32
+//@   let dhrp = ret(bech32.Decode, 1, 0)
+//@   let ddata = ret(bech32.Decode, 1, 1)
+//@   let derr = ret(bech32.Decode, 1, 2)
+//@   ensures isnil(err) == (isnil(derr) && known(dhrp) && len(ddata) >= 1 && ((ddata[0] == 0 && len(ddata) == 33) || (ddata[0] == 8 && len(ddata) == 21) || (ddata[0] == 16 && len(ddata) == 21)))
+//@   ensures implies(isnil(err), hrpof(p, dhrp))
+//@   ensures implies(isnil(err) && ddata[0] == 0, typeis(a, Ed25519Address) && forall(k, 0, 32, a.hash[k] == ddata[1+k]))
+//@   ensures implies(isnil(err) && ddata[0] == 8, typeis(a, AliasAddress) && forall(k, 0, 20, a.hash[k] == ddata[1+k]))
+//@   ensures implies(isnil(err) && ddata[0] == 16, typeis(a, NFTAddress) && forall(k, 0, 20, a.hash[k] == ddata[1+k]))
+//@   ensures implies(!isnil(err), p == 0 && isnil(a))
+//@   panics  never
